@@ -113,6 +113,9 @@ int main(void){
   chk_reparse_stable(&u);
 #endif
 after_meaning:
+#ifdef P_C05
+  chk_tostring_contract(&u);
+#endif
 #ifdef P_C12
   if (mask != 0){
     uk_assert(u.owner == URI_TRUE, "C12: a URI normalised with a non-zero mask owns its text");
